@@ -168,7 +168,7 @@ fn c05_q_tile_ids_checked_against_tileset() {
     // the tileset's "empty tile is id 0" flag is symbolic: whatever it says, every stored id must exist
     let flag: bool = kani::any();
     let mut sets = TilesetsById::new();
-    if !stubs_probe() {
+    if cfg!(test) {
         sets.add(mk_tileset_flag(7, count, 1, 1, Vec::new(), flag));
     }
     set_static_tileset(7, mk_tileset_flag(7, count, 1, 1, Vec::new(), flag));
